@@ -289,6 +289,25 @@ func (w *worldA) byzantine(nd *simNode, rounds int) {
 					m.QueryVersion = qq
 					m.History = cloneMR(gq).History
 					w.judge("forged-earlier-query-version", m, d, qq, cv)
+					// the adversary knows every node of tree qq: offer them all, the
+					// verifier picks what it looks up
+					if qq <= 300 {
+						m3 := cloneMR(m)
+						m3.History = map[string]hashing.Digest{}
+						for h := uint16(0); (uint64(1) << h) <= 2*(qq+1); h++ {
+							for i := uint64(0); i <= qq; i += uint64(1) << h {
+								m3.History[fmt.Sprintf("%d|%d", i, h)] = rl.Hist.node(i, h, qq)
+							}
+						}
+						w.judge("forged-earlier-query-version-all-nodes", m3, d, qq, cv)
+						dd := append([]byte{}, d...)
+						dd[31] ^= 1
+						if !rl.Has(dd) {
+							m4 := cloneMR(m3)
+							m4.KeyDigest = dd
+							w.judge("forged-earlier-query-version-all-nodes-absent-twin", m4, dd, qq, cv)
+						}
+					}
 					// the same for a never-added digest that shares d's leaf
 					dd := append([]byte{}, d...)
 					dd[31] ^= 1
